@@ -459,6 +459,7 @@ pub fn generate(s: &mut Session, tier: &str, rng: &mut Rng) {
     }
     s.mark_nontrivial();
     crate::c13::handshake_early_close(s, thorough);
+    crate::c13::http_non_ascii(s);
     match Crafter::new() {
         Some(mut cr) => {
             udp_cases(s, &mut cr, rng, thorough);
